@@ -158,12 +158,23 @@ class VSModel:
         self.signable, self.authorized, self.threshold, self.gpg = (P(x) for x in ps[:4])
         self.sigmap = SubC(self.signable, "signatures")
         self.payload = SubC(self.signable, "signed")
+        self.G = self._accumulator_of([p for p in self.sm.paths if p.kind == "return"])
+        # the per-entry loop: the loop whose body inserts into the counted set; by default the loop
+        # over the presented envelope's signature map
+        self.loop_base = self.sigmap
+        if self.G is not None:
+            for p in self.sm.paths:
+                if p.kind != "return":
+                    continue
+                for ev, _d in flatten_events(p.events):
+                    if ev[0] == "loop" and any(_touches(e2, self.G) for bp in ev[4] for e2, _d2 in flatten_events(bp[2])):
+                        self.loop_base = ev[2]
         self.returns, self.pre_raises, self.loop_escapes, self.post_raises, self.early_returns = [], [], [], [], []
         self.loop_event = None
         for p in self.sm.paths:
             evs = [ev for ev, _d in flatten_events(p.events)]
-            in_iter = any(ev[0] == "loop-iter" and ev[2] == self.sigmap for ev in evs)
-            after = [ev for ev in evs if ev[0] == "loop" and ev[2] == self.sigmap]
+            in_iter = any(ev[0] == "loop-iter" and ev[2] == self.loop_base for ev in evs)
+            after = [ev for ev in evs if ev[0] == "loop" and ev[2] == self.loop_base]
             if after and self.loop_event is None:
                 self.loop_event = after[0]
             if p.kind == "return":
@@ -175,16 +186,22 @@ class VSModel:
             else:
                 self.pre_raises.append(p)
         if self.loop_event is None:
-            raise AnalysisError("verify_signable: no loop over the presented envelope's signature map was found")
+            raise AnalysisError("verify_signable: no per-entry loop (over the envelope's signature map or inserting into the counted set) was found")
         self.key = self.loop_event[3]  # Elem: the raw map key
         self.entry = Sub(self.sigmap, self.key)
-        self.G = self._accumulator()
         self.body = [BodyPath(bp, self.G) for bp in self.loop_event[4]]
 
+    def require_sigmap_loop(self):
+        if self.loop_base != self.sigmap:
+            raise AnalysisError("verify_signable iterates %s instead of the envelope's signature map: the per-entry decision table of C02 is not defined for this shape" % show(self.loop_base))
+
     def _accumulator(self):
+        return self.G
+
+    def _accumulator_of(self, rets):
         """the container whose size is compared with the threshold on the accepting paths"""
         cands = {}
-        for p in self.returns + self.early_returns:
+        for p in rets:
             for f, (co, c) in le_facts(p.facts):
                 for atom, coeff in co:
                     if is_call(atom, "builtin:len") and atom[2] and (is_lit(atom[2][0]) or is_call(atom[2][0], ("builtin:set", "builtin:dict", "builtin:list"))):
@@ -229,4 +246,6 @@ class VSModel:
         chunks = [ev[3] for ev in bp.events if ev[0] == "hash-update" and ev[2] == h]
         if is_call(h) and h[2] and not is_call(h, "ext:cryptography.hazmat.primitives.hashes.Hash"):
             chunks = [h[2][0]] + chunks  # hashlib.sha256(data)
-        return bool(chunks) and self.eng.expand(chunks[0]) == want_msg
+        from sa.terms import concat_parts
+
+        return bool(chunks) and self.eng.expand(concat_parts(chunks[0])[0]) == want_msg
